@@ -141,4 +141,11 @@ var props = []Prop{
 		Bounds:  "every arity 1..12 (harnesses generated from one template like the library): MapN.New / NewWith (symbolic values) / Assign / Add / Remove / NewBatch / NewBatchQ / AddBatchQ / RemoveBatch and FilterN.Query (unregistered and registered) - every Get position is compared by pointer identity with World.Get of the declared component, selections with the equivalent core filter; Optional at a symbolically chosen position (nil for the absent component); component ids offset by 0 / 14 / 60 fillers (chunk and word boundaries); builder sequences: 3 (thorough 4) symbolic steps out of With / Without / Optional / Exclusive / WithRelation (open or fixed target) / use (with or without runtime target) / register-unregister on Filter0, Filter1, Filter2 followed by a final use, against a set-theoretic model of the configuration at query time on a 9-entity world; Map[T], relation-aware Map2 and Exchange against the core calls; two simultaneously open queries with different runtime targets (known finding)",
 		Outside: "arity 0 beyond Filter0/Query0 in the builder harness; builder sequences longer than 4 steps; generic.Resource is decided in C20",
 	},
+	{
+		ID: "C19",
+		Harnesses: []H{{Pkg: "ecs", Fn: "HC19_Isolation"}, {Pkg: "ecs", Fn: "HC19_Isolation", Tags: "tiny", Tier: "thorough"}},
+		Conform: []H{{Pkg: "ecs", Fn: "HSmoke"}},
+		Bounds:  "two worlds in one heap (same types registered in opposite order, different capacity increments), 2 (thorough 5) prefixes on world 1, one operation on world 1 out of the single-entity (11 kinds), batch (5), removal/retarget (6) families and a query/cache/registration/resource/Stats bundle, with every legal argument; then a fixed sequence on world 2; decided per path: the set of blocks written by the operations on one world is disjoint from everything reachable from the other world (pointers, slices, interfaces, maps, closures, reflect values) and contains no package-level variable; both worlds' observables stay equal to their models. A violation is replayed natively with two goroutines driving their own worlds under the race detector.",
+		Outside: "goroutine schedules are not enumerated: footprint disjointness implies race freedom and independence for one-goroutine-per-world programs under every schedule; shared state inside the Go runtime (allocator, reflect type cache) is trusted",
+	},
 }
